@@ -466,22 +466,6 @@ class C03(Check):
             return "depth-limit-200"
         variadic = [m for m in ms if m["params"] and m["params"][-1].endswith("...")]
         hashy = [m for m in ms if m["params"] is not None and "#" in (m["body"] or "")]
-        # (4) an argument that is not needed in expanded form (only an operand of # / ##, or a variable
-        #     argument the replacement list never names) is macro-expanded all the same; visible when that
-        #     needless expansion fails (a nested call with the wrong number of arguments)
-        if impl_ans[0] == "Err" and impl_ans[1] == "IndexError" and spec_ans[0] == "Ok":
-            for m in ms:
-                if m["params"] is None:
-                    continue
-                bt = self._body_toks(m)
-                ps = self._params(m)
-                for j, p in enumerate(ps):
-                    is_va = m["params"][-1].endswith("...") and j == len(ps) - 1
-                    idx = [i for i, (_, t) in enumerate(bt) if t == p]
-                    operand_only = all((i > 0 and bt[i - 1][1] in ("#", "##")) or
-                                       (i + 1 < len(bt) and bt[i + 1][1] == "##") for i in idx)
-                    if operand_only and (idx or is_va):
-                        return "operand-only-argument-expanded"
         return None
 
     # ---- shrinking ----
